@@ -181,6 +181,13 @@ def _convert_config_to_connection_obj(config) -> Connection:
 
         elif key == "APPLICATIONS":
             if value:
+                if (not isinstance(value, list) or
+                        not all(isinstance(app, dict) for app in value)):
+                    raise InvalidConfigValue(f"Invalid config value "\
+                                             f"'{value}' found for config "\
+                                             f"key '{key}'. It MUST be a "\
+                                             f"list of dictionaries")
+
                 for app in value:
                     app_keys = app.keys()
                     if not [key for key in app_keys if key in ["vendor_id", "app_id"]]:
